@@ -35,8 +35,8 @@ class Check(BaseCheck):
         n_tri, n_tet, size = (24, 10, "small") if self.quick else (400, 150, "large")
         rng = gen.rng_for(self.seed, "c06")
         for kind, stream in (("tri", gen.tria_stream(self.seed + 3, n_tri, size)), ("tet", gen.tet_stream(self.seed + 3, n_tet, size))):
-            for c in stream:
-                v, t = c["v"], c["t"]
+            for kk, c in enumerate(stream):
+                v, t = c["v"] * corr_fem.SCALES[kk % len(corr_fem.SCALES)], c["t"]
                 m = mk(kind, v, t)
                 f = gen.vfuncs(rng, v)[0]
                 X = rng.normal(size=(len(t), 3))
@@ -84,8 +84,9 @@ class Check(BaseCheck):
         rng = gen.rng_for(self.seed, "c06s")
         for kind, stream in (("tri", gen.tria_stream(self.seed + 4, 30 if self.quick else 200, "small")),
                              ("tet", gen.tet_stream(self.seed + 4, 16 if self.quick else 100, "small"))):
-            for c in stream:
-                yield dict(kind=kind, v=c["v"], t=c["t"], f=gen.vfuncs(rng, c["v"])[0], X=rng.normal(size=(len(c["t"]), 3)), name=c["name"])
+            for kk, c in enumerate(stream):
+                v = c["v"] * corr_fem.SCALES[kk % len(corr_fem.SCALES)]
+                yield dict(kind=kind, v=v, t=c["t"], f=gen.vfuncs(rng, v)[0], X=rng.normal(size=(len(c["t"]), 3)), name=c["name"])
 
     def oracle(self, case):
         kind = case["kind"]
